@@ -2,6 +2,10 @@ import Holpy.C17.Proofs
 import Holpy.C17.ExplainProofs
 import Holpy.C17.CompleteFinal
 import Holpy.C17.Rename
+import Holpy.C17.ExplainSpecProofs
+import Holpy.C17.HolTheorems
+import Holpy.C17.ExplainTotal
+import Holpy.C17.ExplainTotalFull
 /-
 C17 — property theorems about the model of `prover/congc.py: CongClosure` (`Model.lean`).
 `run ops` is the structure after the operations `ops` (`add_var` / `merge(a, b)` /
@@ -177,5 +181,122 @@ theorem renaming_invariant (ρ : Cst → Cst) (inj : ∀ x y, ρ x = ρ y → x 
 
 /- non-vacuity: the earlier example with every constant shifted by 10. -/
 example : test (run ([Op.mergeF 1 2 3, .mergeF 4 5 6, .mergeC 1 4, .mergeC 2 5].map (Op.rename (· + 10)))) 13 16 = .ok true := by rfl
+
+/-- The proof forest is well formed in every reachable state: its keys are the entered constants,
+every parent pointer stays inside the class and leads to an entered constant, it is acyclic (ranked),
+every class has exactly one root, and no `_path_to_root` walk inside `merge` ever ran out of steps
+(`stuck` is never set: the model's bound `len(proof_forest)` for the walk always suffices). -/
+theorem proof_forest_wellformed (ops : List Op) : ForestInv (run ops) :=
+  run_forest ops
+
+example : (run [.mergeC 1 2, .mergeC 3 2, .mergeC 4 3]).forest =
+    [(2, none), (1, some (2, .const 1 2)), (3, some (2, .const 3 2)), (4, some (3, .const 4 3))] := by rfl
+
+/-- Whatever the recursion bound and the memo dictionary, `explain` on two constants that `test` reports
+equal can only fail by exhausting the bound: `cur_path` is always computed (no KeyError, no `assert`, the
+walks to the root finish), also in all recursive calls. -/
+theorem explain_fails_only_by_depth (ops : List Op) (a b : Cst) (h : test (run ops) a b = .ok true) :
+    (∃ p, curPath (run ops).forest a b = .ok p) ∧
+    ∀ fuel res e, explain (run ops).forest fuel a b res = .error e → e = .fuel := by
+  have F := run_forest ops
+  have A := argsOK_of (run_sound ops) (run_complete ops) (run_pending_nil ops)
+  unfold test at h
+  split at h
+  · next ra rb h1 h2 =>
+    simp only [Except.ok.injEq, decide_eq_true_eq] at h
+    have da : Dom (run ops) a := ⟨ra, h1⟩
+    have db : Dom (run ops) b := ⟨rb, h2⟩
+    have hab : repOf (run ops) a = repOf (run ops) b := by rw [repOf_of_get h1, repOf_of_get h2, h]
+    exact ⟨curPath_defined F da db hab, fun fuel res e he => explain_only_fuel F A fuel a b res e da db hab he⟩
+  · cases h
+
+example : ∃ p, curPath (run [.mergeF 1 2 3, .mergeF 4 5 6, .mergeC 1 4, .mergeC 2 5]).forest 3 6 = .ok p := ⟨_, rfl⟩
+
+/-- `explain` is total: in every reachable state, for constants `a`, `b` with `test(a, b) == True`,
+`explain(a, b)` returns a dictionary -- no KeyError, no `assert`, and the model's bounds are never hit:
+every walk to the root takes at most `len(proof_forest)` steps and the recursion through application
+labels is at most `len(proof_forest) + 1` deep (`len(proof_forest)` = number of entered constants).
+The recursion is well founded because an application label on the path between two constants was added
+by a union no later than the one that joined the two constants, and its argument pairs were joined by
+strictly earlier unions (time stamps; `TimeInv.lean`). -/
+theorem explain_total (ops : List Op) (a b : Cst) (h : test (run ops) a b = .ok true) :
+    ∃ res, explainTop (run ops) a b = .ok res := by
+  have F := run_forest ops
+  have A := argsOK_of (run_sound ops) (run_complete ops) (run_pending_nil ops)
+  obtain ⟨T, now, TI, b1, b2⟩ := (run_time ops).time
+  unfold test at h
+  split at h
+  · next ra rb h1 h2 =>
+    simp only [Except.ok.injEq, decide_eq_true_eq] at h
+    have da : Dom (run ops) a := ⟨ra, h1⟩
+    have db : Dom (run ops) b := ⟨rb, h2⟩
+    have hab : repOf (run ops) a = repOf (run ops) b := by rw [repOf_of_get h1, repOf_of_get h2, h]
+    unfold explainTop
+    exact explain_succeeds F A TI _ a b [] da db hab (by have := TI.le a b; omega)
+  · cases h
+
+/- non-vacuity: a nested explanation (3 = 6 needs 1 = 4 and 2 = 5 first). -/
+example : ∃ res, explainTop (run [.mergeF 1 2 3, .mergeF 4 5 6, .mergeC 1 4, .mergeC 2 5]) 3 6 = .ok res := ⟨_, rfl⟩
+
+/-- `specTest eqs a b` (merge exactly the equations `eqs` into an empty structure and ask) decides the
+congruence closure of a finite list of equations: the executable form of the specification `Cl`. -/
+theorem specTest_iff (eqs : List Eqn) (a b : Cst) :
+    specTest eqs a b = .ok true ↔ Cl (fun q => q ∈ eqs) a b :=
+  specTest_iff' eqs a b
+
+example : specTest [.f 1 2 3, .f 4 5 6, .c 1 4, .c 2 5] 3 6 = .ok true ∧
+    specTest [.f 1 2 3, .f 4 5 6, .c 1 4] 3 6 = .ok false := by constructor <;> rfl
+
+/-- Every explanation is a proof: the list of input equations that `explain(a, b)` returns
+(`resEqList res`: the constant equations and the application equations of all labels, with
+repetitions) consists of merged equations only, and re-running the decision procedure of the
+specification on exactly these equations derives `a = b`. -/
+theorem explain_complete_proof (ops : List Op) (a b : Cst) (res : Res)
+    (h : explainTop (run ops) a b = .ok res) :
+    specTest (resEqList res) a b = .ok true ∧ ∀ q ∈ resEqList res, eqsOf ops q := by
+  obtain ⟨_, h2, _, h4⟩ := explain_uses_inputs ops a b res h
+  constructor
+  · rw [specTest_iff]
+    exact (Cl.congr_set (fun q => (mem_resEqList res q).symm)).1 h4
+  · intro q hq; exact h2 q ((mem_resEqList res q).1 hq)
+
+/- non-vacuity: the explanation of 3 = 6 lists 1 = 4, 2 = 5 and both application equations; three of them do not suffice. -/
+example : (explainTop (run [.mergeF 1 2 3, .mergeF 4 5 6, .mergeC 1 4, .mergeC 2 5, .mergeC 7 8]) 3 6).toOption.map resEqList =
+    some [.c 1 4, .c 2 5, .f 1 2 3, .f 4 5 6] := by rfl
+
+/-- The HOL wrapper's `test` is sound: after any sequence of `merge` / `add_term` calls (what `test`
+and `explain` do to their arguments), if `test(l, r)` answers `True` then `l = r` is derivable from the
+merged term equations by reflexivity, symmetry, transitivity and congruence of application, and hence
+holds in every structure in which the merged equations hold. -/
+theorem hol_test_sound (wops : List WOp) (l r : Term) (h : (wtest (wrun wops) l r).2 = .ok true) :
+    TCl (weqs wops) l r ∧ Entails (weqs wops) l r :=
+  ⟨wtest_sound_of (wrun_inv wops) h, tcl_entails (wtest_sound_of (wrun_inv wops) h)⟩
+
+/- non-vacuity (a = atom 0, f = atom 1): after merging f a = a, test(f (f a), a) is True. -/
+example : (wtest (wrun [.merge (.app (.atom 1) (.atom 0)) (.atom 0)])
+    (.app (.atom 1) (.app (.atom 1) (.atom 0))) (.atom 0)).2 = .ok true := by rfl
+
+/-- The HOL wrapper's `test` is complete on curried first-order terms: if `l = r` holds in every
+structure satisfying the merged equations (in particular if it is derivable, `TCl`), `test(l, r)`
+answers `True` -- whatever terms were entered before and in whatever order. -/
+theorem hol_test_complete (wops : List WOp) (l r : Term)
+    (h : Entails (weqs wops) l r ∨ TCl (weqs wops) l r) : (wtest (wrun wops) l r).2 = .ok true := by
+  rcases h with h | h
+  · exact wtest_complete_of (wrun_inv wops) h
+  · exact wtest_complete_of (wrun_inv wops) (tcl_entails h)
+
+/- non-vacuity: f a = a entails f (f a) = a. -/
+example : TCl (weqs [.merge (.app (.atom 1) (.atom 0)) (.atom 0)]) (.app (.atom 1) (.app (.atom 1) (.atom 0))) (.atom 0) :=
+  .trans (t := .app (.atom 1) (.atom 0)) (.app (.refl _) (.base (by simp [weqs]))) (.base (by simp [weqs]))
+
+/-- The wrapper's tables stay consistent: `rev_index` and `index` are inverse to each other, the
+core structure is exactly the result of the core calls made (`log`), every entered application
+`Comb(f, x)` has its parts entered and its defining equation `((f', x'), t')` merged, and every merged
+core equation comes from a merged term equation. -/
+theorem hol_tables_consistent (wops : List WOp) : WInv (weqs wops) (wrun wops) :=
+  wrun_inv wops
+
+example : (wrun [.merge (.app (.atom 1) (.atom 0)) (.atom 0)]).index =
+    [(1, .atom 1), (2, .atom 0), (3, .app (.atom 1) (.atom 0))] := by rfl
 
 end Holpy.C17
